@@ -5,11 +5,11 @@
   at c681aea).  `fresh env spec known argv` is the answer of a freshly built, identically configured parser.
 
   * `FullStatement` — every parse call of every history returns the fresh answer — is kept visible and is REFUTED on
-    the current code in four independent ways, each by concrete witness histories: D9 (`d9_witness`,
-    `d9_help_witness`, `d9_errkind_witness`), D10 (`d10_witness`, `d10_later_witness`, `d10_help_witness`), a root-less
-    config file read after the set-up (`rootless_witness`, `rootless_argv_witness` — found in round 2), late
+    the current code in three independent ways, each by concrete witness histories: D9 (`d9_witness`,
+    `d9_help_witness`, `d9_errkind_witness`), D10 (`d10_witness`, `d10_later_witness`, `d10_help_witness`), late
     `add_arguments` (`lateAdd_witness`)  ⇒ `c08_full_false`.  Repaired defects are regression examples
-    (`d5_regression`, `d6_regression`, `d8_regression`, `helpCtor_regression`).
+    (`d5_regression`, `d6_regression`, `d8_regression`, `helpCtor_regression`, and — found in round 2 of this check,
+    repaired by 2abd945 — `rootless_regression`, `rootless_argv_regression`).
   * `c08_partial` (hypothesis `env.reassert = true`, i.e. the tree WITH the D5 repair) — for EVERY history, no bound
     on its length, no hypothesis on it: every parse call that is `safe` in the state it is made in, on a parser all of
     whose earlier calls since its construction kept its state (`keeps`), returns exactly the fresh answer — whatever
@@ -87,8 +87,8 @@ def cfgSetupSafe (p : PState) : Bool := !p.spec.cfgPath || (p.preDone == p.cfgDe
 
 /-- constructor `config_path=` files are re-applied by every call (parsing.py:306-312): reading them again changes
     nothing, and a fresh parser reads exactly the same defaults from them.  (A decidable check of the state, not a
-    proved property of `loadFiles`: idempotence of `unionDefs` is not proved.  It FAILS exactly for
-    `rootless_witness`: after the set-up the root-less file is mis-read.) -/
+    proved property of `loadFiles`: idempotence of `unionDefs` is not proved.  Before 2abd945 it failed for the
+    `rootless_regression` history: after the set-up the root-less file was mis-read.) -/
 def ctorReloadSafe (env : Env) (p : PState) : Bool :=
   decide (loadFiles env (loadCtx p) p.fileDefs p.stray p.spec.cfgFiles = .ok p.fileDefs p.stray) &&
   decide (loadFiles env (loadCtx (newP p.spec)) [] [] p.spec.cfgFiles = .ok p.fileDefs p.stray)
@@ -1131,10 +1131,10 @@ def d9ErrHist : List Op :=
 def d9RejectedHist : List Op :=
   mkP 0 cU clsS "s" ++ [.parse 0 false (argvOf ["--mod", "y"]), .parse 0 false (argvOf ["--mod", "z"]),
     .parse 0 false (argvOf ["--mod", "y"])]
-/-- NEW (round 2): a WITHOUT_ROOT parser with a root-less constructor file over a class with a subgroups field:
-    `set_defaults` tests `len(self._wrappers) == 1` (parsing.py:412) but `_preprocessing` has flattened the child
-    wrapper into `_wrappers`, so from the 2nd call on the file's keys become parser-level defaults: a stray
-    top-level attribute `k` on the namespace -/
+/-- found in round 2, repaired by 2abd945: a WITHOUT_ROOT parser with a root-less constructor file over a class with
+    a subgroups field.  `set_defaults` tested `len(self._wrappers) == 1` after `_preprocessing` had flattened the child
+    wrapper into `_wrappers`, so from the 2nd call on the file's keys became parser-level defaults (a stray top-level
+    attribute `k`); now only the top-level wrappers count (parsing.py:412-422) -/
 def rootlessHist : List Op := mkP 0 cW clsSK "s" (fs := ["rs.json"]) ++ [.parse 0 false [], .parse 0 false []]
 /-- the same through `--config_path` on the command line -/
 def rootlessArgvHist : List Op :=
@@ -1143,8 +1143,12 @@ def rootlessArgvHist : List Op :=
 
 theorem d9_witness : allAgree env0 init d9Hist = false := by decide
 theorem d9_errkind_witness : allAgree env0 init d9ErrHist = false := by decide
-theorem rootless_witness : allAgree env0 init rootlessHist = false := by decide
-theorem rootless_argv_witness : allAgree env0 init rootlessArgvHist = false := by decide
+theorem rootless_regression : allAgree env0 init rootlessHist = true ∧ safeHist env0 init rootlessHist = true := by
+  decide
+/-- the same through `--config_path` on the command line: every call agrees now (the second call is still outside
+    `safe` — a file given to a parser that is already set up, D10's exclusion — although harmless here: the same file) -/
+theorem rootless_argv_regression :
+    allAgree env0 init rootlessArgvHist = true ∧ safeHist env0 init rootlessArgvHist = false := by decide
 theorem d9_help_witness : allAgree env0 init d9HelpHist = false := by decide
 theorem d10_witness : allAgree env0 init d10Hist = false := by decide
 theorem d10_later_witness : allAgree env0 init d10LaterHist = false := by decide
@@ -1170,7 +1174,7 @@ example : allAgree env0 init d9RejectedHist = true ∧ safeHist env0 init d9Reje
 example : (runHist env0 init rootlessHist).getLast? =
     some (.ok [{ dest := "s".toList, cls := "SK".toList, fields := [("k".toList, .sc (.int 5))],
                  sub := some ("mod".toList, "X".toList, [("xv".toList, .sc (.int 1))]) }]
-              [("s.mod".toList, .sc (.str "x".toList))] none [] [("k".toList, .sc (.int 5))]) := by decide
+              [("s.mod".toList, .sc (.str "x".toList))] none [] []) := by decide
 
 /-- **the full statement does not hold for the current code** -/
 theorem c08_full_false : ¬ FullStatement := by
@@ -1182,8 +1186,6 @@ theorem c08_full_false : ¬ FullStatement := by
 /-- each witness history contains a call that `safe` excludes — the exclusions are where the failures are -/
 example : safeHist env0 init d9Hist = false := by decide
 example : safeHist env0 init d9ErrHist = false := by decide
-example : safeHist env0 init rootlessHist = false := by decide
-example : safeHist env0 init rootlessArgvHist = false := by decide
 example : safeHist env0 init d9HelpHist = false := by decide
 example : safeHist env0 init d10Hist = false := by decide
 example : safeHist env0 init d10LaterHist = false := by decide
